@@ -54,6 +54,12 @@ type Scenario struct {
 	ZeroStart       bool          `json:"zero_start,omitempty"` // StartHeight 0 is meant literally
 	E2              *E2Spec       `json:"e2,omitempty"`         // open-environment mode: one real node
 	Pools           map[int][]H   `json:"pools,omitempty"`      // per-node initial pool (overrides Pool)
+	Twin            bool          `json:"twin,omitempty"`       // C05: twin oracles after every re-initialisation (E2 only)
+	ValBase         uint32        `json:"val_base,omitempty"`   // height of ValSets[0] minus one (defaults to StartHeight)
+	TipHash         H             `json:"tip_hash,omitempty"`
+	TipSet          bool          `json:"tip_set,omitempty"`
+	FreshPools      map[int][]H   `json:"-"`
+	FreshKnown      map[int][]H   `json:"-"`
 	Sweep           bool          `json:"sweep,omitempty"`      // C11: inadmissible-input sweep in every state (E2 only)
 	Oracle          string        `json:"oracle,omitempty"`     // extra world-level oracle: C08 | C09 | C16
 	ByzScript       []ByzStep     `json:"byz_script,omitempty"` // sends of the Byzantine member that are part of the base (cost 0)
@@ -102,6 +108,9 @@ func (sc *Scenario) finish() *Scenario {
 	if sc.Heights == 0 {
 		sc.Heights = 1
 	}
+	if sc.ValBase == 0 {
+		sc.ValBase = sc.StartHeight
+	}
 	if sc.TxPerBlock == 0 {
 		sc.TxPerBlock = 1
 	}
@@ -138,7 +147,7 @@ func (sc *Scenario) validatorsAt(h uint32) []int {
 		}
 		return r
 	}
-	i := int(h) - int(sc.StartHeight) - 1
+	i := int(h) - int(sc.ValBase) - 1
 	if i < 0 {
 		i = 0
 	}
@@ -218,6 +227,7 @@ type World struct {
 	lastNPR *prepReq // arguments of the latest NewPrepareRequest callback (C15)
 	e2      *e2env
 	skips   int
+	hist    []Event
 
 	start        time.Time
 	newTxDone    int
@@ -260,6 +270,9 @@ func newWorld(sc *Scenario, st *Stats) *World {
 		genesisTS = sc.PrevTS
 	}
 	tip := H(0xabc0 + uint64(sc.StartHeight))
+	if sc.TipSet {
+		tip = sc.TipHash
+	}
 	for id := 0; id < len(sc.Kinds); id++ {
 		n := &Node{id: id, kind: sc.Kinds[id], w: w, height: sc.StartHeight, tip: tip, tipTS: genesisTS,
 			known: map[H]bool{}, cvSeen: map[uint32]map[uint16]byte{}}
@@ -271,6 +284,13 @@ func newWorld(sc *Scenario, st *Stats) *World {
 			if !slices.Contains(sc.Missing[id], t) {
 				n.known[t] = true
 				n.pool = append(n.pool, t)
+			}
+		}
+		if fp, ok := sc.FreshPools[id]; ok {
+			n.pool = append([]H{}, fp...)
+			n.known = map[H]bool{}
+			for _, t := range sc.FreshKnown[id] {
+				n.known[t] = true
 			}
 		}
 		w.nodes = append(w.nodes, n)
@@ -684,6 +704,7 @@ func (w *World) find(dst int, h H, remove bool) *Payload {
 func (w *World) apply(e Event) {
 	curWorld = w
 	w.steps++
+	w.hist = append(w.hist, e)
 	n := w.nodes[e.N]
 	if w.logOn {
 		w.logf("== %s", w.describe(e))
@@ -741,6 +762,8 @@ func (w *World) apply(e Event) {
 		n.SupplyTx(e.P)
 	case "txpool":
 		n.known[e.P] = true
+	case "twin":
+		w.twinCheck(nil)
 	case "sweep":
 		ins := sweepInputs(n)
 		if e.A >= len(ins) {
